@@ -556,6 +556,44 @@ func c18Sig(info *types.Info, n ast.Node, inModule func(*types.Package) bool) []
 }
 
 func c18SigInto(info *types.Info, n ast.Node, inModule func(*types.Package) bool, set map[string]bool, depth int) {
+	// how a map-typed field of the repository record is consulted: `v, ok := repo.Metadata[k]` (absent differs from
+	// empty) or plainly `repo.Metadata[k]` (absent reads as the zero value) - siblings must agree on that too
+	repoMapField := func(e ast.Expr) string {
+		ix, ok := ast.Unparen(e).(*ast.IndexExpr)
+		if !ok {
+			return ""
+		}
+		se, ok := ast.Unparen(ix.X).(*ast.SelectorExpr)
+		if !ok || info.Selections[se] == nil {
+			return ""
+		}
+		recv := an.NamedOf(info.Selections[se].Recv())
+		if recv == nil || recv.Obj().Name() != "Repository" {
+			return ""
+		}
+		if _, isMap := info.TypeOf(ix.X).Underlying().(*types.Map); !isMap {
+			return ""
+		}
+		return "Repository." + se.Sel.Name
+	}
+	commaOK := map[ast.Expr]bool{}
+	ast.Inspect(n, func(m ast.Node) bool {
+		if as, ok := m.(*ast.AssignStmt); ok && len(as.Lhs) == 2 && len(as.Rhs) == 1 {
+			if f := repoMapField(as.Rhs[0]); f != "" {
+				commaOK[ast.Unparen(as.Rhs[0])] = true
+				set["lookup(comma-ok) "+f] = true
+			}
+		}
+		return true
+	})
+	ast.Inspect(n, func(m ast.Node) bool {
+		if e, ok := m.(ast.Expr); ok && !commaOK[e] {
+			if f := repoMapField(e); f != "" {
+				set["lookup(plain: absent reads as zero value) "+f] = true
+			}
+		}
+		return true
+	})
 	ast.Inspect(n, func(m ast.Node) bool {
 		// the predicate may delegate to a helper of the same package: its body belongs to the signature
 		if c, ok := m.(*ast.CallExpr); ok && depth < 2 && an.Current != nil {
